@@ -926,6 +926,7 @@ restore_ownership (void *data)
 {
   OwnershipRestoreData *d = data;
   DBusList *link;
+  DBusList *still_queued;
 
   _dbus_assert (d->service_link != NULL);
   _dbus_assert (d->owner_link != NULL);
@@ -943,6 +944,25 @@ restore_ownership (void *data)
    * changes, since we're reverting something that was
    * cancelled (effectively never really happened)
    */
+  /* bus_service_remove_owner() took the owner out of the queue (and dropped
+   * the queue's reference on it); bus_service_swap_owner() only moved it to
+   * second place.  Either way it goes back to where it was. */
+  still_queued = NULL;
+  link = _dbus_list_get_first_link (&d->service->owners);
+  while (link != NULL)
+    {
+      if (link->data == d->owner)
+        {
+          still_queued = link;
+          break;
+        }
+
+      link = _dbus_list_get_next_link (&d->service->owners, link);
+    }
+
+  if (still_queued != NULL)
+    _dbus_list_unlink (&d->service->owners, still_queued);
+
   link = _dbus_list_get_first_link (&d->service->owners);
   while (link != NULL)
     {
@@ -951,12 +971,21 @@ restore_ownership (void *data)
 
       link = _dbus_list_get_next_link (&d->service->owners, link);
     }
-  
-  _dbus_list_insert_before_link (&d->service->owners, link, d->owner_link);
 
-  /* the queue holds a reference on each of its owners; the one dropped by
-   * bus_service_unlink_owner() is taken back with the place in the queue */
-  bus_owner_ref (d->owner);
+  if (still_queued != NULL)
+    {
+      /* same link, same reference; the preallocated link is freed with d */
+      _dbus_list_insert_before_link (&d->service->owners, link, still_queued);
+    }
+  else
+    {
+      _dbus_list_insert_before_link (&d->service->owners, link, d->owner_link);
+      d->owner_link = NULL;
+
+      /* the queue holds a reference on each of its owners; the one dropped
+       * by bus_service_unlink_owner() is taken back with the place */
+      bus_owner_ref (d->owner);
+    }
 
   /* Note that removing then restoring this changes the order in which
    * ServiceDeleted messages are sent on destruction of the
@@ -964,10 +993,10 @@ restore_ownership (void *data)
    * that the base service is destroyed last, and we never even
    * tentatively remove the base service.
    */
-  bus_connection_add_owned_service_link (d->owner->conn, d->service_link);
-  
-  d->service_link = NULL;
-  d->owner_link = NULL;
+  /* The connection's list of owned names still has its entry for this
+   * name: it goes away with the owner's last reference, and the owner was
+   * kept alive by this restore data.  Adding the preallocated link as well
+   * would list (and count) the name twice; it is freed with d. */
 }
 
 static void
